@@ -1526,8 +1526,10 @@ impl<T: Transport, Env: UtpEnvironment> VirtualSocket<T, Env> {
     }
 
     fn unsent_data_exists(&mut self) -> bool {
-        // either unsegmented data exists, or unsent data exists or both
-        self.this_poll.unsegmented_data > 0
+        // either unsegmented data exists, or unsent data exists or both.
+        // Look at the TX buffer itself: segmentation can return before it counts what is left
+        // (e.g. while an MTU probe is in flight), and the count from an earlier poll is stale.
+        self.unsegmented_data_now() > 0
             || self
                 .user_tx_segments
                 .iter_mut_for_sending(None)
